@@ -12,6 +12,7 @@ import (
 	"fmt"
 	"io"
 	"net/http"
+	"net/http/httptest"
 	"net/url"
 	"reflect"
 
@@ -223,6 +224,9 @@ type Obs struct {
 	Detail string // error / panic text: for the human-readable report only, never compared
 	Events string
 	Rid    int
+	// Unreached: the read was to be a stage of a container dispatch that did not get that far; it was
+	// performed on the request all the same (counted)
+	Unreached bool
 }
 
 func (o Obs) Key() string {
@@ -256,10 +260,8 @@ func Restore() {
 	restful.DefaultRequestContentType("")
 }
 
-// ReadOne performs one real ReadEntity under recover().
-func (s *Session) ReadOne(rd Read) (o Obs) {
-	s.l.ev = s.l.ev[:0]
-	s.l.rid = -1
+// newHTTPRequest is the *http.Request of a read: its two entity headers and its body.
+func (s *Session) newHTTPRequest(rd Read, path string) *http.Request {
 	h := http.Header{}
 	if rd.CT != "" {
 		h.Set("Content-Type", rd.CT)
@@ -267,8 +269,34 @@ func (s *Session) ReadOne(rd Read) (o Obs) {
 	if rd.CE != "" {
 		h.Set("Content-Encoding", rd.CE)
 	}
-	hr := &http.Request{Method: "POST", URL: &url.URL{Path: "/"}, Header: h, ContentLength: int64(len(rd.Body)),
+	return &http.Request{Method: "POST", URL: &url.URL{Path: path}, Header: h, ContentLength: int64(len(rd.Body)),
 		Body: &trackedBody{r: bytes.NewReader(rd.Body), l: s.l}}
+}
+
+// ReadOne performs one real ReadEntity under recover(), on a request of its own.
+func (s *Session) ReadOne(rd Read) (o Obs) {
+	return s.readOn(restful.NewRequest(s.newHTTPRequest(rd, "/")), rd, false)
+}
+
+// readOn performs one real ReadEntity under recover() on the given *restful.Request. With `put`, the
+// request has been through earlier stages (ReadEntity calls among them): the body of the read is put
+// in place of whatever the earlier stages left there, and the two entity headers are set to the
+// read's (a stage that keeps the raw bytes, reads, and restores the body for the next stage; or one
+// that replaces the body). Nothing else of the request is touched.
+func (s *Session) readOn(req *restful.Request, rd Read, put bool) (o Obs) {
+	s.l.ev = s.l.ev[:0]
+	s.l.rid = -1
+	if put {
+		for _, kv := range [][2]string{{"Content-Type", rd.CT}, {"Content-Encoding", rd.CE}} {
+			if kv[1] != "" {
+				req.Request.Header.Set(kv[0], kv[1])
+			} else {
+				req.Request.Header.Del(kv[0])
+			}
+		}
+		req.Request.ContentLength = int64(len(rd.Body))
+		req.Request.Body = &trackedBody{r: bytes.NewReader(rd.Body), l: s.l}
+	}
 	target := rd.Val.NewTarget()
 	defer func() {
 		if p := recover(); p != nil {
@@ -277,7 +305,7 @@ func (s *Session) ReadOne(rd Read) (o Obs) {
 		o.Events = canonEvents(s.l.ev)
 		o.Rid = s.l.rid
 	}()
-	err := restful.NewRequest(hr).ReadEntity(target)
+	err := req.ReadEntity(target)
 	if err != nil {
 		var se restful.ServiceError
 		if errors.As(err, &se) && se.Code == http.StatusBadRequest {
@@ -292,6 +320,105 @@ func (s *Session) ReadOne(rd Read) (o Obs) {
 		o.Canon += " !not-deep-equal"
 	}
 	return o
+}
+
+// Groups cuts a history into the runs of reads that share one *restful.Request: a read with Same
+// belongs to the group of the read before it (the first read of a history starts a group whatever
+// its flag says).
+func Groups(reads []Read) [][2]int {
+	var out [][2]int
+	for i := range reads {
+		if i == 0 || !reads[i].Same {
+			out = append(out, [2]int{i, i + 1})
+		} else {
+			out[len(out)-1][1] = i + 1
+		}
+	}
+	return out
+}
+
+// StageOf says who performs read i of a history: "direct" (ReadEntity called on a restful.NewRequest
+// by the harness), or the stage of a container dispatch: container-filter, service-filter,
+// route-filter, route-function.
+func StageOf(reads []Read, i int) string {
+	for _, g := range Groups(reads) {
+		if i < g[0] || i >= g[1] {
+			continue
+		}
+		if !reads[g[0]].Dispatch {
+			return "direct"
+		}
+		nf := g[1] - g[0] - 1
+		if i-g[0] == nf {
+			return "route-function"
+		}
+		return []string{"container-filter", "service-filter", "route-filter"}[(i-g[0])*3/nf]
+	}
+	return "direct"
+}
+
+// Run performs the reads of a history in order on this session's provider. Every group of reads
+// (Groups) is performed on ONE *restful.Request: directly, or — Dispatch on its first read — by the
+// stages of one dispatch through a real container: the last read of the group by the route
+// function, the ones before by container, web service and route filters in that order; every stage
+// puts its body in place, reads the entity and passes the request on.
+func (s *Session) Run(reads []Read) []Obs {
+	obs := make([]Obs, len(reads))
+	for _, g := range Groups(reads) {
+		grp := reads[g[0]:g[1]]
+		if !grp[0].Dispatch {
+			req := restful.NewRequest(s.newHTTPRequest(grp[0], "/"))
+			for k, rd := range grp {
+				obs[g[0]+k] = s.readOn(req, rd, k > 0)
+			}
+			continue
+		}
+		ran := make([]bool, len(grp))
+		var shared *restful.Request
+		stage := func(k int, req *restful.Request) {
+			shared = req
+			ran[k] = true
+			obs[g[0]+k] = s.readOn(req, grp[k], k > 0)
+		}
+		nf := len(grp) - 1
+		c := restful.NewContainer()
+		ws := new(restful.WebService)
+		ws.Path("/e")
+		rb := ws.POST("/r").To(func(req *restful.Request, resp *restful.Response) { stage(nf, req) })
+		for k := 0; k < nf; k++ {
+			k := k
+			f := func(req *restful.Request, resp *restful.Response, chain *restful.FilterChain) {
+				stage(k, req)
+				chain.ProcessFilter(req, resp)
+			}
+			switch k * 3 / nf {
+			case 0:
+				c.Filter(f)
+			case 1:
+				ws.Filter(f)
+			default:
+				rb.Filter(f)
+			}
+		}
+		hr := s.newHTTPRequest(grp[0], "/e/r")
+		func() {
+			defer func() { recover() }()
+			ws.Route(rb)
+			c.Add(ws)
+			c.ServeHTTP(httptest.NewRecorder(), hr)
+		}()
+		// a stage the dispatch did not reach (routing is not this check's subject) reads all the same
+		for k, rd := range grp {
+			if !ran[k] {
+				if shared == nil {
+					shared = restful.NewRequest(hr)
+				}
+				obs[g[0]+k] = s.readOn(shared, rd, k > 0)
+				obs[g[0]+k].Unreached = true
+			}
+		}
+	}
+	return obs
 }
 
 // ---- encoding for the driver ----
